@@ -277,11 +277,18 @@ func (g *gen) seq(d int, terminated bool) (string, string) {
 	n := 1 + g.pick(2)
 	t1, s1, a1 := g.item(d)
 	if n == 1 {
+		amp := terminated && g.pick(2) == 1 // the item runs in the background
 		if g.multiline {
+			if amp {
+				return "\n" + t1 + " &\n", "[" + withSep(s1, a1, "&") + "]"
+			}
 			if terminated {
 				return "\n" + t1 + "\n", "[" + s1 + "]"
 			}
 			return t1, "[" + s1 + "]"
+		}
+		if amp {
+			return t1 + " & ", "[" + withSep(s1, a1, "&") + "]"
 		}
 		if terminated {
 			return t1 + "; ", "[" + withSep(s1, a1, ";") + "]"
@@ -404,4 +411,14 @@ func C02_Closers() {
 	if err == nil && err2 == nil {
 		nd.Assert(SkelEq(got) == SkelEq(want), "a reserved word directly after a closing token gives the same program as with a separator")
 	}
+}
+
+// genProgram returns the text of a generated derivation (for the print/parse
+// round-trip harnesses).
+func genProgram(d, budget int) []rune {
+	g := &gen{multiline: nd.Choice(2) == 1, budget: budget}
+	g.leaf = string(nd.RuneIn("a9é"))
+	g.name = "v"
+	text, _ := g.seq(d, false)
+	return []rune(text)
 }
